@@ -98,6 +98,32 @@ def run(tier, rep):
         rep.case(digest([data.hex(), str(seg), "reader"]))
         if got_s != got_f:
             rep.reject("SocketEqualsFile", {"engine": "socket+framer"}, {"stream_hex": data.hex(), "recv_script": seg, "file_frames": len(got_f), "socket_frames": len(got_s)})
+    # timeouts / OS errors exactly at item boundaries: nothing is buffered, nothing may be lost -
+    # the client reads again after (None, None) and must get every remaining message
+    for i in range(10 if quick else 80):
+        data, items = gen_streams.mixed_stream(rnd, pool, rnd.randint(3, 9), well_formed=True, crlf_only=True)
+        script = []
+        for it in items:
+            if rnd.random() < 0.4:
+                script.append(rnd.choice(["timeout", "oserror"]))
+            script.append(len(it[1]))
+        sock = sockdouble.ScriptedSocket(data, script)
+        got_s = []
+        try:
+            rd = RTCMReader(sock, bufsize=4096, quitonerror=0)
+            for _ in range(len(script) + 3):
+                r, p = rd.read()
+                if r is not None:
+                    got_s.append((bytes(r), str(p)))
+                elif sock.drained:
+                    break
+        finally:
+            sock.close()
+        got_f = [(bytes(r), str(p)) for r, p in RTCMReader(io.BytesIO(data), quitonerror=0)]
+        rep.case(digest([data.hex(), str(script), "boundary-timeouts"]))
+        if got_s != got_f:
+            rep.reject("SocketEqualsFile", {"engine": "socket+framer", "segmentation": "timeouts-at-boundaries"},
+                       {"stream_hex": data.hex(), "recv_script": script, "file_frames": len(got_f), "socket_frames": len(got_s)})
     bigf = b"".join(__import__("harness.decode_rec", fromlist=["x"]).frame_of(bytes([0x7D, 0x00]) + bytes(rnd.randrange(256) for _ in range(n - 2))) for n in (30, 1023, 40, 1010, 12))
     sock = sockdouble.ScriptedSocket(bigf, [1] * len(bigf))
     try:
